@@ -90,6 +90,13 @@ func one(r *ev.Run, env *rt.Env, p progen.Program, c *counters, verbose bool) {
 		// the static search found nothing but the real VM disagrees with the table
 		r.Report("conformance:"+feat, src+"\n  "+tr.Mismatch[0], replayIn{p.Fam, src}, tr.Mismatch[0], "every executed instruction matches the effect table")
 	}
+	if out.Stage == "run" && out.Class != "timeout" && out.VM != nil {
+		// an evaluation that failed with operands pending leaves none of them behind: what stays is what the
+		// next invocation on this VM starts on top of (a Call overflows at once; a REPL loses a slot per failure)
+		if sp := out.VM.VerifSP(); sp != -1 {
+			r.Report("failed-sp:"+feat, fmt.Sprintf("%s\n  the evaluation fails (%s) and leaves %d values on the stack", src, ev.Clip(out.ErrText, 80), sp+1), replayIn{p.Fam, src}, fmt.Sprint(sp+1), "0")
+		}
+	}
 	if out.Stage == "ok" && out.VM != nil {
 		if sp := out.VM.VerifSP(); sp != 0 {
 			r.Report("final-sp:"+feat, fmt.Sprintf("%s\n  finished evaluation leaves %d values on the stack", src, sp+1), replayIn{p.Fam, src}, fmt.Sprint(sp+1), "1")
@@ -174,7 +181,7 @@ func Check(r *ev.Run, replay string) {
 	r.Set("concrete_steps_checked_against_table", int(c.steps))
 	r.Set("programs_analysed", int(c.programs))
 	r.Set("programs_rejected_by_compiler_skipped", int(c.skippedRejected))
-	r.Set("rule", fmt.Sprintf("explicit-state search over (code, ip, height) of the bytecode of every control-skeleton program with <= %d statement nodes (all) and <= %d (break/continue under a switch in a loop) and of every program of the function, scoping, container, error/defer, closure and constant families; conformance: every instruction executed by the real VM for the same programs is compared with the effect table; scaled loop bounds 10 vs large for every loop skeleton", maxAll, maxFiltered))
+	r.Set("rule", fmt.Sprintf("explicit-state search over (code, ip, height) of the bytecode of every control-skeleton program with <= %d statement nodes (all) and <= %d (break/continue under a switch in a loop) and of every program of the function, scoping, container, error/defer, closure and constant families; conformance: every instruction executed by the real VM for the same programs is compared with the effect table, a finished evaluation leaves exactly its result and a failed one nothing on the stack; scaled loop bounds 10 vs large for every loop skeleton", maxAll, maxFiltered))
 }
 
 // scaled runs every loop skeleton with its outermost loops at 10 iterations and at a
